@@ -146,7 +146,7 @@ READER_TB = [
 ]
 
 PROPS["C04"] = {
-    "lean": ["WsVerif.Props.C04", "WsVerif.Props.C04Cb", "WsVerif.Props.C04Discard", "WsVerif.Props.C04DiscardMsg", "WsVerif.Props.C04DiscardText", "WsVerif.Props.C04ReadMessage", "WsVerif.Props.C04ReadAll", "WsVerif.Props.C04ReadMessageFrag", "WsVerif.Props.C04ReadData", "WsVerif.Props.C04ReadDataSkip", "WsVerif.Props.C08ReadData", "WsVerif.Bridge.C04"],
+    "lean": ["WsVerif.Props.C04", "WsVerif.Props.C04Cb", "WsVerif.Props.C04Discard", "WsVerif.Props.C04DiscardMsg", "WsVerif.Props.C04DiscardText", "WsVerif.Props.C04ReadMessage", "WsVerif.Props.C04ReadAll", "WsVerif.Props.C04ReadMessageFrag", "WsVerif.Props.C04ReadData", "WsVerif.Props.C04ReadDataSkip", "WsVerif.Props.C08ReadData", "WsVerif.Bridge.C04", "WsVerif.Props.C08Intermediate"],
     "rule": "Valid frame streams from a grammar (1-4 messages, 1-4 fragments incl. empty ones, ping/pong with 0..125-byte payloads between "
             "fragments and between messages, payload classes 0,1,2,7,8,125,126,300 (+70000 in thorough), text built from 1-4-byte code "
             "points, both sides) replayed under transport chunkings {whole,1,2,3,7,random}, EOF and data-with-EOF transports, through "
@@ -188,7 +188,7 @@ PROPS["C16"] = {
 }
 
 PROPS["C08"] = {
-    "lean": ["WsVerif.Props.C08", "WsVerif.Props.C08ReadData", "WsVerif.Props.C08ReadDataClose", "WsVerif.Props.C04Cb", "WsVerif.Props.C04ReadAll", "WsVerif.Props.C04ReadMessageFrag", "WsVerif.Bridge.C08"],
+    "lean": ["WsVerif.Props.C08", "WsVerif.Props.C08ReadData", "WsVerif.Props.C08ReadDataClose", "WsVerif.Props.C08Intermediate", "WsVerif.Props.C04Cb", "WsVerif.Props.C04ReadAll", "WsVerif.Props.C04ReadMessageFrag", "WsVerif.Bridge.C08"],
     "rule": "ControlHandler.Handle (masked source on the server side), ControlFrameHandler and HandleControlMessage (Client/Server variants) "
             "for ping, pong, close x payload lengths 0..125 (all in thorough; 0..12, every 9th, 118..125 in quick) x both sides; all 65,536 "
             "close codes (thorough; 1/13 + the boundary windows in quick) with no / valid / truncated / 0xFF reasons; 1-byte close payloads; "
@@ -209,7 +209,7 @@ PROPS["C08"] = {
                   "close frames get the empty / echoed-code / 1002 reply and the right error value; every reply header passes the peer's "
                   "CheckHeader and the 1002 payload passes the peer's CheckCloseFrameData. The unchanged tree violated the property (F1: "
                   "client-side protocol-error reply unmasked and garbled; F2: ControlWriter never counted) — found by the oracle, repaired "
-                  "by fix commits cf8539c and 3950338. In the helper loop (Props/C08ReadData.loop_ping / loop_history): wsutil.ReadData answers every "
+                  "by fix commits cf8539c and 3950338. Between the fragments of a message (Props/C08Intermediate.readAll_message_pongs): a wsutil.Reader with wsutil.ControlFrameHandler as OnIntermediate (CheckUTF8 off) reading ANY fragmentation with pings (1..125 bytes) and pongs interleaved anywhere, any chunking, delivers the message's data and writes exactly one pong per ping with the identical payload, in order, nothing else. In the helper loop (Props/C08ReadData.loop_ping / loop_history): wsutil.ReadData answers every "
                   "ping it meets before the wanted message with exactly that pong - one per ping, in order, nothing else written.",
     "level_note": "Trusted: Lean kernel, the reply oracle, harness; source-unmasking variant (server-side ControlHandler with a masked Src) is "
                   "covered by correspondence only.",
